@@ -395,7 +395,7 @@ def _pfft_contract(tag, with_scratch):
         # a native replay sees the returned Wavefront alone and checks the remaining clauses
         if not getattr(ctx, 'replaying', False):
             ins = ctx.__dict__.get('ghost_fft2_inputs', [])
-            ctx.oblige('propagate.propagate_fft::fft2_called_once[%s]' % tag, len(ins) == 1)
+            ctx.oblige('propagate.propagate_fft::fft2_called_once[%s]' % tag, len(ins) == 1, 'structure')
             if len(ins) != 1:
                 return None
             x = ins[0]
